@@ -352,7 +352,24 @@ def s_pps(tier):
 
 
 def build_scenario_and_pps(r):
-    return gs.build_scenario(r)
+    sc = gs.build_scenario(r)
+    if r.get("_shared_states"):
+        # two vehicles of a platoon were given the very same Python list of predicted states (each trajectory stores the
+        # list it is given): each of them is still moved exactly once with the scenario
+        import copy
+        from commonroad.prediction.prediction import TrajectoryPrediction
+        from commonroad.scenario.obstacle import DynamicObstacle
+        from commonroad.scenario.trajectory import Trajectory
+        for o in sc.dynamic_obstacles:
+            if isinstance(o.prediction, TrajectoryPrediction):
+                tr = o.prediction.trajectory
+                twin = DynamicObstacle(987650, o.obstacle_type, copy.deepcopy(o.obstacle_shape),
+                                       copy.deepcopy(o.initial_state),
+                                       TrajectoryPrediction(Trajectory(tr.initial_time_step, tr.state_list),
+                                                            copy.deepcopy(o.prediction.shape)))
+                sc.add_objects(twin)
+                break
+    return sc
 
 
 FACETS = [
@@ -383,7 +400,9 @@ FACETS = [
     facet("goal-region", s_goal, gs.build_goal, 1500, 80000, "1-3 goal states with shapes / angle intervals", 1),
     facet("planning-problem", s_pp, gs.build_planning_problem, 1200, 60000, "initial state + goal region", 1),
     facet("planning-problem-set", s_pps, gs.build_pps, 600, 30000, "two planning problems", 1),
-    facet("scenario", lambda tier: gs.scenario_recipe(max_lanelets=4, max_obstacles=4, max_pps=0, lim=500),
+    facet("scenario", lambda tier: st.tuples(gs.scenario_recipe(max_lanelets=4, max_obstacles=4, max_pps=0, lim=500),
+                                             st.sampled_from([False, False, True])).map(
+        lambda t: dict(t[0], _shared_states=t[1])),
           build_scenario_and_pps, 800, 40000,
           "whole scenarios with any mix of static/dynamic/phantom/environment obstacles (never fails, all moved)"),
 ]
